@@ -13,13 +13,13 @@ CHECKS = {
  "C04": dict(
    technique="TLA+ model checking over ordered tokens (TLC, all streams of any length over the alphabet) + bidirectional conformance (TLC-enumerated streams replayed under 9 float embeddings; recorded random streams validated by a TLA+ trace spec)",
    category="model_checking",
-   text="spec/Selection.tla transcribes the cached-extremum/rescan logic, the index ageing and SMM's two binary searches + slice shift next to the definitions (max, min, newest arg-extremum, middle order statistics) over tokens <<rank, +-0 bit>>; TLC checks impl = definition in EVERY reachable state (the graph is finite without a depth bound, so every stream of every length over 5 ranks and -0.0 is covered for lengths 1..4 quick / 1..6 thorough), plus slice sortedness/permutation/in-bounds. Binding: TLC enumerates all streams of length n+3 over the alphabet and the harness replays them on the real methods under nine order-preserving float embeddings (exact comparison, sign of zero ignored); random streams for all lengths 1..254 (ties, plateaus, monotone runs, +-0) are recorded from the real code and validated by Trace_Tok against the definitions.",
+   text="spec/Selection.tla transcribes the cached-extremum/rescan logic, the index ageing and SMM's two binary searches + slice shift next to the definitions (max, min, newest arg-extremum, middle order statistics) over tokens <<rank, +-0 bit>>; TLC checks impl = definition in EVERY reachable state (the graph is finite without a depth bound, so every stream of every length over 5 ranks and -0.0 is covered for lengths 1..4 quick / 1..6 thorough), plus slice sortedness/permutation/in-bounds. Binding: TLC enumerates all streams of length n+3 over the alphabet and the harness replays them on the real methods under eleven order-preserving float embeddings (exact comparison, sign of zero ignored); random streams for all lengths 1..254 (ties, plateaus, monotone runs, +-0) are recorded from the real code and validated by Trace_Tok against the definitions.",
    design_ref="DESIGN.md 5/C04",
    note="Token abstraction is sound because these algorithms only compare values and test bit-equality; NaN/inf inputs are rejected by the methods and not generated. The internal Window is read abstractly (C01)."),
  "C14": dict(
    technique="TLA+ model checking (TLC; crossing detectors complete, reversal detectors with a scaled-down PeriodType explored past counter saturation) + bidirectional conformance (enumerated streams replayed; recorded long streams validated by a TLA+ trace spec)",
    category="model_checking",
-   text="spec/Cross.tla and Reversal.tla give the detectors as coded (last-delta sign; window + saturating/rebased PeriodType position counters) and definitionally (sign change rule; pivot of the surrounding left+right+1 elements with the documented tie rule). TLC checks impl = definition on every pair of streams (cross, incl. touches, repeated zeros, -0.0, antisymmetry) and, for the reversal detectors, on every stream of ANY length with PMAX scaled to 7 (quick) and 15 (thorough), i.e. far beyond saturation of the position counter. Binding: all streams up to depth 8/11 replayed on the real detectors under nine embeddings; recorded streams of 700-3000 inputs (all (left,right) classes incl. 1/252) validated against the definition by TLC.",
+   text="spec/Cross.tla and Reversal.tla give the detectors as coded (last-delta sign; window + saturating/rebased PeriodType position counters) and definitionally (sign change rule; pivot of the surrounding left+right+1 elements with the documented tie rule). TLC checks impl = definition on every pair of streams (cross, incl. touches, repeated zeros, -0.0, antisymmetry) and, for the reversal detectors, on every stream of ANY length with PMAX scaled to 7 (quick) and 15 (thorough), i.e. far beyond saturation of the position counter. Binding: all streams up to depth 8/11 replayed on the real detectors under eleven embeddings (incl. magnitudes 1e-170 and 1e160, whose products under/overflow), and replayed again LATE in a stream (after 254-j and 254+(256-w)-j copies of the construction value, so that the renumbering of the position counters falls on every position of the behaviour); recorded streams of 700-3000 inputs (all (left,right) classes incl. 1/252) validated against the definition by TLC.",
    design_ref="DESIGN.md 5/C14",
    note="Reversal programs start with the construction value as first input (Method::new's contract). The scaled-down PMAX model is tied to the real u8 counters by the long recorded streams."),
 
@@ -44,7 +44,7 @@ CHECKS = {
  "C10": dict(
    technique="TLA+ model of every constructor's pre-validation arithmetic evaluated by TLC on all parameter values (complete tables), replayed on the real constructors; accepted instances soaked",
    category="model_checking",
-   text="spec/Params.tla models each method constructor and MA::init as coded (PeriodType arithmetic with overflow, Window::new's debug assertion, guards, nested constructors in evaluation order) with outcome ok/err/panic. TLC evaluates all 256 lengths (all 65536 pairs for two-parameter constructors, out-of-range counts) and prints the table; the harness calls the real constructors on the same complete sets in the dev profile and compares outcome classes, checks non-finite construction values, and runs every accepted instance for 700/3000 steps. Parameter values on which the model (and the code) panics are reported per constructor. Indicator level: spec/MC_IndParams enumerates every one- and two-field deviation from each indicator's default configuration over boundary grids per parameter type (35k configurations); the harness applies them through set(), and checks validate() = false => init Err, no panic in set/validate/init, and no panic of accepted instances on a stream.",
+   text="spec/Params.tla models each method constructor and MA::init as coded (PeriodType arithmetic with overflow, Window::new's debug assertion, guards, nested constructors in evaluation order) with outcome ok/err/panic. TLC evaluates all 256 lengths (all 65536 pairs for two-parameter constructors, out-of-range counts) and prints the table; the harness calls the real constructors on the same complete sets in the dev profile and compares outcome classes, checks non-finite construction values, and runs every accepted instance for 700/3000 steps. Parameter values on which the model (and the code) panics are reported per constructor. Indicator level: spec/MC_IndParams enumerates every one- and two-field deviation from each indicator's default configuration over boundary grids per parameter type (35k configurations); the harness applies them through set(), and checks validate() = false => init Err, no panic in set/validate/init, and no panic of accepted instances on a stream. Accepted instances are also driven on long-regime streams (trends with ripple: hundreds of local peaks on one side of zero; rallies of more than PeriodType::MAX bars), the selection methods on TLC-enumerated token behaviours and on long zero-heavy token streams (signed zeros, ties) -- panics only.",
    design_ref="DESIGN.md 5/C10",
    note="Indicator validate/init tables are part of C11's replay; text parsing is covered by C18's grammar model."),
  "C13": dict(
@@ -108,7 +108,7 @@ CHECKS = {
  "C11": dict(
    technique="TLA+ model of the configuration contract instantiated with the catalogue of public parameters (TLC enumerates every (name, text)), replayed on static and dyn configurations; Api.tla programs on every indicator (static vs dyn)",
    category="model_checking",
-   text="spec/Config.tla: set(name, text) changes exactly the named public parameter to the value the text denotes for its type, else Err and unchanged; TLC enumerates per indicator all fields + foreign names x 22 texts and two-step sequences (29k programs), the harness replays them on the real static and dynamically dispatched configurations (observed through Serialize). Api.tla with the indicator operation set (init, next, over, init_fn, clone, snapshot) replayed on all 36 indicators, static and dyn, bit-exact; name(), size(), config(), default validity; the result shape is compared with size() at every step of 400-step streams with untraded stretches (runs of zero-volume candles, zero-volume first candle), and every result of every C05/C06 trace has exactly size() values and signals.",
+   text="spec/Config.tla: set(name, text) changes exactly the named public parameter to the value the text denotes for its type, else Err and unchanged; TLC enumerates per indicator all fields + foreign names x 22 texts and two-step sequences (29k programs), the harness replays them on the real static and dynamically dispatched configurations (observed through Serialize). Api.tla with the indicator operation set (init, next, over, init_fn, clone, snapshot) replayed on all 36 indicators, static and dyn, bit-exact; static vs dyn on every configuration MC_IndParams enumerates, valid or not (validate, name, size, init Ok/Err, over on 0/1/6 candles); name(), size(), config(), default validity; the result shape is compared with size() at every step of 400-step streams with untraded stretches (runs of zero-volume candles, zero-volume first candle), and every result of every C05/C06 trace has exactly size() values and signals.",
    design_ref="DESIGN.md 5/C11",
    note="The catalogue is read from the serialized default configurations (the struct definitions)."),
  "C12": dict(
@@ -120,13 +120,13 @@ CHECKS = {
  "C19": dict(
    technique="TLA+ model checking of the in-bounds invariants at every unchecked access site + TLC-generated tables/behaviours replayed on the unsafe build + identical transcripts of recorded programs under both builds",
    category="model_checking",
-   text="Window.tla (push/newest/oldest/Index/iterators: InB, WIndexInBounds, WellFormed for all capacities and phases) and Selection.tla's SMM (find_index/find_insert_index results and the shifted range inside the slice in every reachable state) are model-checked; the TLC-emitted Window tables and token behaviours are replayed on a harness built with unsafe_performance; seven recorders (window, selection, reversal, numeric finite/recursive, indicators, converters) run under both builds with calls that panic in the safe build left out, transcripts must be byte-identical.",
+   text="Window.tla (push/newest/oldest/Index/iterators: InB, WIndexInBounds, WellFormed for all capacities and phases) and Selection.tla's SMM (find_index/find_insert_index results and the shifted range inside the slice in every reachable state) are model-checked; the TLC-emitted Window tables and token behaviours are replayed on a harness built with unsafe_performance; ten recorders (window, selection, reversal, numeric finite/recursive incl. boundary lengths, indicators, converters, and adversarial documents offered to Deserialize -- every array of every method snapshot shortened / lengthened / emptied, every small integer changed) run under both builds with calls that panic in the safe build left out, transcripts must be byte-identical.",
    design_ref="DESIGN.md 5/C19",
    note="Memory safety is claimed for the explored state space (model + conformance), not in general; Miri is an auxiliary monitor."),
  "C20": dict(
    technique="identical transcripts across PeriodType builds for parameters that fit u8; TLA+ trace validation with PMAX = 65535 for lengths beyond 255 and with eps = 2^-23 for the f32 build; MC_Window with 16-bit period arithmetic",
    category="model_checking",
-   text="(a) u16/u32 (thorough: u64, u16+unsafe) builds produce byte-identical transcripts to the default build for seven recorders pinned to PMAX = 255; (b) on the u16 build, windows up to 999 and methods with lengths up to 999/299 are validated by Trace_Window / Trace_Tok / Trace_Num with PMAX = 65535; MC_Window re-checked with PMAX = 65535 for capacities 254..257, 300, 1000; (c) the value_type_f32 build is validated by Trace_Num with the single-precision allowance, and MC_Action's From<float> step function (every k/1020, special values) is replayed on Action::from(ValueType) of that build.",
+   text="(a) u16/u32 (thorough: u64, u16+unsafe) builds produce byte-identical transcripts to the default build for ten recorders pinned to PMAX = 255 (incl. boundary lengths up to PeriodType::MAX for the windowless methods, and adversarial documents offered to Deserialize); (b) on the u16 build, windows up to 999 and methods with lengths up to 999/399/299 (HMA beyond 255) are validated by Trace_Window / Trace_Tok / Trace_Num with PMAX = 65535; MC_Window re-checked with PMAX = 65535 for capacities 254..257, 300, 1000; (c) the value_type_f32 build is validated by Trace_Num with the single-precision allowance and by Trace_Tok (selections, medians, reversals on mixed-sign tokens), and MC_Action's From<float> step function (every k/1020, special values) is replayed on Action::from(ValueType) of that build.",
    design_ref="DESIGN.md 5/C20",
    note="Generators are pinned through YV_PMAX so that programs are the same across builds."),
 }
